@@ -15,6 +15,9 @@ CT = {
     "i32": ("std::int32_t", 32, True, "int"), "u32": ("std::uint32_t", 32, False, "int"),
     "i64": ("std::int64_t", 64, True, "int"), "u64": ("std::uint64_t", 64, False, "int"),
     "i128": ("__int128", 128, True, "int"), "u128": ("unsigned __int128", 128, False, "int"),
+    # distinct built-in types of the same width (own template specialisations, e.g. in <cnl/bit.h>)
+    "ull": ("unsigned long long", 64, False, "int"), "ll": ("long long", 64, True, "int"),
+    "uchar": ("unsigned char", 8, False, "int"), "schar": ("signed char", 8, True, "int"),
     "bool": ("bool", 1, False, "bool"),
     "f32": ("float", 32, True, "fp"), "f64": ("double", 64, True, "fp"), "f80": ("long double", 80, True, "fp"),
 }
